@@ -1057,9 +1057,11 @@ static bool canResend(ssl_t *ssl)
 
     if (ssl->flags & SSL_FLAGS_SERVER)
     {
-        if (ssl->hsState == SSL_HS_FINISHED)
-            canSend = 1;
-
+        /* (A server waiting for Finished resends only in a resumed
+           handshake, see below. In a full one its flight has evidently
+           arrived - the client answered it - and the only flight the
+           encoder can build in this state is that of a RESUMED
+           handshake, which is not what was sent.) */
         if (ssl->hsState == SSL_HS_CLIENT_HELLO)
         {
             canSend = 1; /* any handshake type */
